@@ -360,3 +360,38 @@ pub fn run_c16(ctx: &Ctx) -> i32 {
 
 #[allow(dead_code)]
 fn _unused(_: Audio, _: config::Encoder) {}
+
+/// Miri/sanitizer-sized C16: bit flips, byte XORs and truncations of one or two tiny streams.
+pub fn mini_c16(ctx: &Ctx, scale: u64, out: &mut Outcome) {
+    let bases = base_streams(ctx.seed, 2);
+    for (bi, b) in bases.iter().enumerate() {
+        let nbits = (b.bytes.len() - b.audio_offset) * 8;
+        let mut rng = Rng::for_case(ctx.seed, "mini.C16", bi as u64);
+        for k in 0..(40 * scale as usize) {
+            let mut d = b.bytes.clone();
+            let what = match k % 4 {
+                0 | 1 => {
+                    let bit = b.audio_offset * 8 + rng.usize_below(nbits);
+                    d[bit / 8] ^= 0x80 >> (bit % 8);
+                    format!("flip bit {bit}")
+                }
+                2 => {
+                    let pos = rng.usize_below(d.len());
+                    d[pos] ^= 1 + rng.usize_below(255) as u8;
+                    format!("xor byte {pos}")
+                }
+                _ => {
+                    let cut = rng.usize_below(d.len());
+                    d.truncate(cut);
+                    format!("truncate at {cut}")
+                }
+            };
+            let mut r = parse_and_classify(&d, &b.pcm);
+            if k % 4 == 3 && matches!(r, Parsed::OkDifferent(_)) {
+                // a truncated stream may be a valid shorter stream; only panics count here
+                r = Parsed::Err;
+            }
+            report(ctx, "mini", k as u64, b, &what, r, out);
+        }
+    }
+}
